@@ -460,7 +460,25 @@ func checkBadfilterFilter(c *Ctx, filter, twin *ssa.Function, kBad int64) {
 		}
 		fw(cp.call)
 	}
+	// the collection may be built by a helper: then it is the list some emission's scan ranges over,
+	// and it must accumulate exactly the badfilter rules of the input
+	helperColl := map[*E]bool{}
 	if collPhi == nil {
+		for _, em := range emits {
+			for _, at := range u.AtomsOf(s.RC[em.call.Block()]) {
+				if at.Op != "exists" || helperColl[at.Args[0]] {
+					continue
+				}
+				if _, exact := accumulates(g, s, at.Args[0], in0, isBad); exact {
+					helperColl[at.Args[0]] = true
+					collOK = true
+					c.OK("C08.R1", shortFn(filter)+": collection holds every badfilter rule of the input", filter.Pos(),
+						"built by a helper: full range over the input; appended exactly when the rule has the badfilter option")
+				}
+			}
+		}
+	}
+	if collPhi == nil && len(helperColl) == 0 {
 		c.Fail("C08.R1", shortFn(filter)+": collection holds every badfilter rule of the input", filter.Pos(), "UNDECIDED: no collection of the badfilter rules found (accepted shape: a slice appended in a full scan of the input)")
 	}
 	// once collected, the list stays as it is while the candidates are tested
@@ -566,6 +584,9 @@ func checkBadfilterFilter(c *Ctx, filter, twin *ssa.Function, kBad int64) {
 			if e := s.Env[v]; e != nil {
 				collVals[e] = true
 			}
+		}
+		for e := range helperColl {
+			collVals[e] = true
 		}
 		for _, at := range u.AtomsOf(rc) {
 			if at.Op != "exists" {
